@@ -1,8 +1,8 @@
 #!/bin/bash
 # tools/round6.sh <Cxx> [check-id]  -- confirm + try both round-6 seeds of a property, keep the caught ones.
 P="$1"; ID="${2:-$1}"; T="$(dirname "$0")"
-for s in k l; do
-  SD=/tmp/seeds6/$P-$s
+for s in ${SUFFIXES:-m n}; do
+  SD=${SEEDS:-/tmp/seeds7}/$P-$s
   [ -f "$SD/meta.json" ] || { echo "$P-$s: not delivered"; continue; }
   "$T/seed_pipeline.sh" "$SD" "$ID" quick 2>&1 | cut -c1-700
   "$T/keep_if_caught.sh" "$SD" "$ID" "$ID quick" 2>&1 | cut -c1-400
